@@ -41,6 +41,16 @@ def _z3_check(smt, timeout_ms, mbqi):
     return 'unknown', reason
 
 
+def _solve_one_x(args):
+    """thorough tier: additionally re-check every obligation z3 proved with cvc5 (independent second opinion)"""
+    name, smt, timeout_ms, full = args
+    r = _solve_one(args)
+    second = ''
+    if r[1] == 'unsat' and r[2].startswith('z3'):
+        second = _cvc5(smt, 20)
+    return r + (second,)
+
+
 def _solve_one(args):
     """verdicts: unsat (proved) | sat (counter-model) | failed (E-matching saturated, no prover closed it: candidate
     counter-model attached) | unknown (timeouts only) | error"""
@@ -88,7 +98,7 @@ def _cvc5(smt, timeout_s):
         return 'unknown'
 
 
-def solve_all(obligations, timeout_s=10, jobs=None, use_cvc5=True, extra_axioms=()):
+def solve_all(obligations, timeout_s=10, jobs=None, use_cvc5=True, extra_axioms=(), cross_check=False):
     """returns dict name -> (verdict, backend, seconds, model)"""
     jobs = jobs or min(16, os.cpu_count() or 1)
     tasks = []
@@ -107,6 +117,14 @@ def solve_all(obligations, timeout_s=10, jobs=None, use_cvc5=True, extra_axioms=
         return out
     ctx = multiprocessing.get_context('fork')
     with ctx.Pool(min(jobs, len(tasks))) as pool:
-        for (name, verdict, backend, secs, model) in pool.imap_unordered(_solve_one, tasks):
-            out[name] = (verdict, backend, secs, model)
+        if cross_check:
+            for (name, verdict, backend, secs, model, second) in pool.imap_unordered(_solve_one_x, tasks):
+                out[name] = (verdict, backend, secs, model)
+                CROSS[name] = second
+        else:
+            for (name, verdict, backend, secs, model) in pool.imap_unordered(_solve_one, tasks):
+                out[name] = (verdict, backend, secs, model)
     return out
+
+
+CROSS = {}
